@@ -400,7 +400,6 @@ pub fn run(opts: &Opts) -> Report {
     let mut rep = Report::new("C07", "exploration");
     rep.assumptions = vec![
         "a feature literally named '*' never appears as a name in bigram.cost (a dropped feature and a real '*' feature would be indistinguishable)".into(),
-        "the ''/'' line (both features empty) is excluded: cost(0,0) counts it over the lane-padded width, observable only through the accessor (open known finding)".into(),
         "duplicate (right, left) lines in bigram.cost are not generated (which one counts is unspecified)".into(),
         "dual == defining sum is asserted only where Σ_p|c_p| ≤ 32767 (the pre-summed part cannot have been clamped)".into(),
     ];
